@@ -261,6 +261,14 @@ package rhp
 //@   loop "range renterSigResp.RenterSatisfiedPolicies"
 //@     invariant -1 <= rangeindex && rangeindex < len(renterSigResp.RenterSatisfiedPolicies)
 //@   ensures [released-or-broadcast] called("FundV2Transaction") && callres("FundV2Transaction", 2) == nil ==> called("BroadcastV2TransactionSet") && callres("BroadcastV2TransactionSet") == nil || called("ReleaseInputs")
+// one (basis, set) pair -- the one V2TransactionSet returned -- goes to the pool, to the
+// contractor, to the broadcast and back to the renter (a set is only valid under its own basis)
+//@   ensures [one-basis] called("BroadcastV2TransactionSet") && callres("BroadcastV2TransactionSet") == nil ==>
+//@         callarg("AddV2PoolTransactions", 1) == callres("V2TransactionSet", 0) && callarg("AddV2PoolTransactions", 2) == callres("V2TransactionSet", 1)
+//@      && callarg("AddV2Contract", 1).Basis == callres("V2TransactionSet", 0) && callarg("AddV2Contract", 1).Transactions == callres("V2TransactionSet", 1)
+//@      && callarg("BroadcastV2TransactionSet", 1) == callres("V2TransactionSet", 0) && callarg("BroadcastV2TransactionSet", 2) == callres("V2TransactionSet", 1)
+//@      && callarg("WriteResponse", 1).(*rhp4.RPCFormContractThirdResponse).Basis == callres("V2TransactionSet", 0)
+//@      && callarg("WriteResponse", 1).(*rhp4.RPCFormContractThirdResponse).TransactionSet == callres("V2TransactionSet", 1)
 //
 //@ iface Contractor.RenewV2Contract
 //@   assigns nothing
@@ -290,6 +298,12 @@ package rhp
 //@   loop "range renterSigResp.RenterSatisfiedPolicies"
 //@     invariant -1 <= rangeindex && rangeindex < len(renterSigResp.RenterSatisfiedPolicies)
 //@   ensures [released-or-broadcast] called("FundV2Transaction") && callres("FundV2Transaction", 2) == nil ==> called("BroadcastV2TransactionSet") && callres("BroadcastV2TransactionSet") == nil || called("ReleaseInputs")
+//@   ensures [one-basis] called("BroadcastV2TransactionSet") && callres("BroadcastV2TransactionSet") == nil ==>
+//@         callarg("AddV2PoolTransactions", 1) == callres("V2TransactionSet", 0) && callarg("AddV2PoolTransactions", 2) == callres("V2TransactionSet", 1)
+//@      && callarg("RenewV2Contract", 1).Basis == callres("V2TransactionSet", 0) && callarg("RenewV2Contract", 1).Transactions == callres("V2TransactionSet", 1)
+//@      && callarg("BroadcastV2TransactionSet", 1) == callres("V2TransactionSet", 0) && callarg("BroadcastV2TransactionSet", 2) == callres("V2TransactionSet", 1)
+//@      && callarg("WriteResponse", 1).(*rhp4.RPCRefreshContractThirdResponse).Basis == callres("V2TransactionSet", 0)
+//@      && callarg("WriteResponse", 1).(*rhp4.RPCRefreshContractThirdResponse).TransactionSet == callres("V2TransactionSet", 1)
 //@ func (*Server).handleRPCRenewContract props C16
 //@   callbacks pure
 //@   requires s != nil && s.contractor != nil && s.chain != nil && s.wallet != nil && s.settings != nil && stream != nil
@@ -300,3 +314,9 @@ package rhp
 //@   loop "range renterSigResp.RenterSatisfiedPolicies"
 //@     invariant -1 <= rangeindex && rangeindex < len(renterSigResp.RenterSatisfiedPolicies)
 //@   ensures [released-or-broadcast] called("FundV2Transaction") && callres("FundV2Transaction", 2) == nil ==> called("BroadcastV2TransactionSet") && callres("BroadcastV2TransactionSet") == nil || called("ReleaseInputs")
+//@   ensures [one-basis] called("BroadcastV2TransactionSet") && callres("BroadcastV2TransactionSet") == nil ==>
+//@         callarg("AddV2PoolTransactions", 1) == callres("V2TransactionSet", 0) && callarg("AddV2PoolTransactions", 2) == callres("V2TransactionSet", 1)
+//@      && callarg("RenewV2Contract", 1).Basis == callres("V2TransactionSet", 0) && callarg("RenewV2Contract", 1).Transactions == callres("V2TransactionSet", 1)
+//@      && callarg("BroadcastV2TransactionSet", 1) == callres("V2TransactionSet", 0) && callarg("BroadcastV2TransactionSet", 2) == callres("V2TransactionSet", 1)
+//@      && callarg("WriteResponse", 1).(*rhp4.RPCRenewContractThirdResponse).Basis == callres("V2TransactionSet", 0)
+//@      && callarg("WriteResponse", 1).(*rhp4.RPCRenewContractThirdResponse).TransactionSet == callres("V2TransactionSet", 1)
